@@ -20,7 +20,7 @@ RULE = ("cases = groups of independent ops, each op one complete connection: `re
         "valid requests (no body, Content-Length, chunked, keep-alive pairs, HTTP/1.0, OPTIONS first) cut at EVERY byte "
         "position through srv/req/tcp for the dispatch clause; every percent escape %00-%ff in both letter cases; query strings with "
         "escaped & = + inside keys and values; Content-Length that is not a length / together with chunked, each followed by a "
-        "pipelined request; folded header lines, Content-Length with leading zeros, Transfer-Encoding spellings; `rng` = GET of a fixture file (36, 4, 0 bytes) with a generated Range value (number pairs around the size, 2^31, 2^32+5, 2^63, 18/19/20 digits, signs, blanks, one/three/four parts, suffix forms, other units, commas, NUL, random bytes without CR/LF); `upg` = a request head with Upgrade: websocket (or near misses, cut or mutated heads, a Content-Length body) and 0-200 first-frame bytes in ONE segment to an HttpServer with a linked WebSocketServer; `upgf` = the same in two segments (cut anywhere, second segment 15 ms later); `fmap` = GET of every short token path on the file-server fixture (status and length); non-trivial = distinct case with a non-empty stream")
+        "pipelined request; folded header lines, Content-Length with leading zeros, Transfer-Encoding spellings; `rng` = GET of a fixture file (36, 4, 0 bytes) with a generated Range value (number pairs around the size, 2^31, 2^32+5, 2^63, 18/19/20 digits, signs, blanks, one/three/four parts, suffix forms, other units, commas, NUL, random bytes without CR/LF); `upg` = a request head with Upgrade: websocket (or near misses, cut or mutated heads, a Content-Length body) and 0-200 first-frame bytes in ONE segment to an HttpServer with a linked WebSocketServer; `upgf` = the same in two segments (cut anywhere, second segment 15 ms later); `fmap` = GET of every short token path on the file-server fixture (status and length); well-formed requests (no body, Content-Length, chunked) with an Expect field (100-continue mostly; other case, lists, other values) at a random header position through req (whole, with trailing bytes, cut) and srv (pipelined); non-trivial = distinct case with a non-empty stream")
 
 TRUSTED = ["tools/props/c09.py _frame(): lenient RFC 7230 framing parser used by the dispatch clause (no opinion where framing is a matter of interpretation: NUL in the head, folded or duplicate Content-Length/Transfer-Encoding, non-decimal lengths, chunk extensions/trailers)",
            "harness/c09.cpp watchdog (12 s kill) and SLOW flag (>5 s wall or >1.5 s CPU per connection) for the 'terminates promptly' clause",
@@ -76,7 +76,11 @@ LEVEL_TEXT = ("Proved in Lean 4 about the model that the driver runs, for ALL by
               "tied by the op `upg` (head + frame bytes written in one segment, a WebSocketServer subclass linked to the HttpServer reads what is left on the "
               "descriptor at the hand-off; `upgf`: the same stream delivered in two segments cut inside the head or the frame, the second arriving while the server "
               "reads - the answer must not depend on the cut; in the model a fragmentation is a list of segments whose concatenation the blocking reads see). ONE DECODING: (path_decoded_once, path_decoded_once_any, path_is_one_pass_decoding, decode_inverts_one_escape) a path text sent with its `%` escaped as `%25` arrives as "
-              "that text (`%252e%252e` is `%2e%2e`, never `..`), for every path; tied by tg/req/dec as before.")
+              "that text (`%252e%252e` is `%2e%2e`, never `..`), for every path; tied by tg/req/dec as before. EXPECT: (read_faithful_expect, expect_interim_answer, "
+              "wellformed_is_expect_free) read(serialize q ++ rest) = (q, rest) also for every well-formed q that carries an Expect field (WellFormedX = WellFormed without its no-Expect clause; no body or a Content-Length body), "
+              "and the only bytes written to the peer are the interim answer: `HTTP/1.1 100 Continue` for `Expect: 100-continue` and a body shorter than 128000000 bytes, `HTTP/1.1 417 Too big` from there on (the body is read all the same), "
+              "nothing for any other Expect value or none; tied by req/srv/tcp (out= compares the bytes written back) on generated well-formed requests with an Expect field at a random header position, whole, pipelined and cut, and on "
+              "fixed Content-Length values around 128000000 / 2^63 / signs / non-numbers; the python reference judges the interim answer of the strictly well-formed ones on the implementation alone.")
 
 LEVEL_NOTE = ("Trusted: Lean kernel, harness + watchdog, the python framing parser, libc/OS as listed in assumptions. The query theorems "
               "import C15's model/proofs (AslModel.Codec incl. the regenerated Gen/TablesGen, AslProofs.Query*). The Upgrade: websocket hand-off "
@@ -98,7 +102,7 @@ LEVEL_NOTE = ("Trusted: Lean kernel, harness + watchdog, the python framing pars
               "The Range parser is modelled (AslModel/HttpRange.lean: rangeAnswer; putFile's outcome is C10's rangeOf, imported, not copied) and checked by `rng` on "
               "NUL-free and NUL-bearing values without CR/LF; bytes actually sent for a 206 are C10's (fileSlice), here only their number is compared. "
               "If-Modified-Since handling of the file server is covered by the safety oracle of the `file` op only (no byte "
-              "from outside the root, legal status codes, ASan); plain GET mapping is model-checked by `fmap`. Partial: the header "
+              "from outside the root, legal status codes, ASan); plain GET mapping is model-checked by `fmap`. The Expect theorems cover requests without body or with a Content-Length body; Expect together with chunked framing is K only (the chunked faithful theorems keep their no-Expect clause), and so is the interim answer inside the keep-alive loop (serve_faithful keeps it too). Partial: the header "
               "hypotheses of the faithful-read theorems are stated on hdrDic (the fold), the sorted-map lemma `other keys unaffected` "
               "is not proved here; String::replace/contains are modelled directly as leftmost removal / scan for `..` (tied by K on "
               "every target over {. / %2e %2f %25 a} up to the stated length).")
